@@ -172,6 +172,8 @@ def _check(e, profile, m, quota, simultaneous, kind, tiebreak, rec, seam_log, in
                         if pop == sorted(pile) and en["k"] == k:
                             found = i
                             break
+                    if found is None and k == 0:
+                        continue  # nothing to draw: an implementation may skip the (empty) draw altogether
                     if found is None:
                         raise Mismatch("random-draw", r, f"no draw of {k} from exactly the {len(pile)} transferable unit ballots of {w} was made (draws: {[(len(en['pop']), en['k']) for en in entries]})")
                     used[found] = True
